@@ -8,8 +8,8 @@ PROP = {'title': 'Grid positions, offsets and ranges form an exact row-major bij
                'compared cell by cell / visit by visit with plain nested loops; the carry logic of the position iterator and the stride '
                'accumulation of offset are universally quantified over sizes, so the complete small-size space (including zero extents, '
                '1-wide dimensions, empty and inverted sub-ranges in 3-D) is what the claim needs and what fixed-size tests do not give.',
- 'level_note': 'bounded: N <= 3; quick tier = the stated bound (extents 0..4, min/sup components 0..5), thorough tier extents 0..5 and '
-               'min/sup 0..6; size types '
+ 'level_note': 'bounded: N <= 3; quick tier = the stated bound (extents 0..4, min/sup components 0..5), thorough tier extents 0..6 and '
+               'min/sup 0..7; size types '
                'unsigned, unsigned char and std::size_t for the free functions, std::size_t for grid::object; oracle = nested loops over '
                'plain integers in harness/C08_common.hpp; sanitizer aborts are attributed to the announced case',
  'binaries': [{'name': 'C08',
@@ -17,20 +17,20 @@ PROP = {'title': 'Grid positions, offsets and ranges form an exact row-major bij
                'libs': [],
                'flavour': 'asan'}],
  'deadline': {'quick': 240, 'thorough': 1200},
- 'rule': 'nested loops over explicit domains (bounds of the quick tier; thorough: extents 0..5, min/sup 0..6): all sizes with extents '
+ 'rule': 'nested loops over explicit domains (bounds of the quick tier; thorough: extents 0..6, min/sup 0..7): all sizes with extents '
          '0..4 for N = 1,2,3 (155 sizes); offset for every in-range position; '
          'in_range_dim / in_range / at_optional for every position with components in 0..extent+1 or the maximum of the size type; '
          'pos_range, min_less_sup, range_dim, range_size, next_position for every (min, sup) with components 0..5; pos_ref_range (const '
-         'and non-const) for every size x (min, sup) whose non-empty range lies inside the grid; resize for every (old size, new size) '
+         'and non-const) for every size x every (min, sup) with components in 0..extent+1 whose range is empty or lies inside the grid; resize for every (old size, new size) '
          'pair with lvalue and rvalue (move-only cells) source; map, fill, object constructors per size; apply for every pair (and, '
-         'smaller extents, triple) of sizes; clamped_min / clamped_sup / clamped_sup_signed over {type min, min+1, -3..6, max-1, max} per '
+         'smaller extents, triple) of sizes, also with an rvalue first grid; clamped_min / clamped_sup / clamped_sup_signed over {type min, min+1, -3..6, max-1, max} per '
          'component x sizes {0..4, max}. Oracle = explicit loops in storage order (x fastest). A case is non-trivial when at least two '
          'positions are visited (a step or carry happens) or, for N > 1, the range is empty because of exactly one component; for '
          'offset when the position is not the origin; for in_range/at_optional when the position is on or beyond the last in-range '
          'index of some axis; for resize when kept and new cells are mixed; for apply when the result is non-empty or the sizes differ '
          'with equal cell count; for the clamp helpers when a component is clamped. Cases are distinct argument tuples.',
  'assumptions': ['pos_ref_range sub-ranges are only built when the non-empty range lies inside the grid (dereferencing outside is a '
-                 'precondition violation); empty and inverted ranges are built for every grid',
+                 'precondition violation); empty and inverted ranges are built with components up to extent+1',
                  'range_dim / range_size / pos_range::size() are not instantiated for unsigned char: they do not compile for size types '
                  'narrower than int (sup - min is promoted to int); iteration, offset, in_range_dim, min_less_sup, next_position and '
                  'clamped_sup are checked for unsigned char',
